@@ -162,6 +162,44 @@ func c17Build(lib *ast.KnowledgeLibrary, text string) (o c17Outcome) {
 	return
 }
 
+var c17EntryNames = []string{"BuildRuleFromResources", "MustBuildRuleFromResources", "BuildRulesFromBundle", "MustBuildRulesFromBundle"}
+
+type c17Bundle struct{ rs []pkg.Resource }
+
+func (b c17Bundle) Load() ([]pkg.Resource, error) { return b.rs, nil }
+func (b c17Bundle) MustLoad() []pkg.Resource      { return b.rs }
+
+// c17Entry builds the texts, one resource each, through one multi-resource entry point into a fresh library.
+func c17Entry(entry int, texts []string) (failed bool, what string) {
+	var rs []pkg.Resource
+	for _, t := range texts {
+		rs = append(rs, pkg.NewBytesResource([]byte(t)))
+	}
+	rb := builder.NewRuleBuilder(ast.NewKnowledgeLibrary())
+	var err error
+	var pan interface{}
+	func() {
+		defer func() { pan = recover() }()
+		switch entry {
+		case 0:
+			err = rb.BuildRuleFromResources("KB", "1", rs)
+		case 1:
+			rb.MustBuildRuleFromResources("KB", "1", rs)
+		case 2:
+			err = rb.BuildRulesFromBundle("KB", "1", c17Bundle{rs})
+		case 3:
+			rb.MustBuildRulesFromBundle("KB", "1", c17Bundle{rs})
+		}
+	}()
+	switch {
+	case pan != nil:
+		return true, fmt.Sprintf("panicked: %v", firstLineOf(fmt.Sprint(pan)))
+	case err != nil:
+		return true, "returned " + firstLineOf(err.Error())
+	}
+	return false, "returned normally"
+}
+
 const c17Good = `rule g1 "keep" salience 4 { when F.I2 < 1 then F.I2 = F.I2 + 1; F.S = F.S + "g1"; }
 rule g2 { when F.K < 1 && F.S.Len() >= 0 then F.K = F.K + 1; F.S = F.S + "g2"; }`
 
@@ -244,7 +282,7 @@ func C17(rep *ev.Reporter, tier string) {
 		keep := map[string]bool{names[0]: true, names[1]: true}
 		clash[di] = clashPrefix{t, c17Behaviour(lib, keep), keep}
 	}
-	var clashChecked int64
+	var clashChecked, entryChecked int64
 	ParallelEach(len(jobs), func(ji int) {
 		j := jobs[ji]
 		id := fmt.Sprintf("c17/%d/%d", j.doc, ji)
@@ -349,6 +387,33 @@ func C17(rep *ev.Reporter, tier string) {
 				}
 			}
 		}
+		// the multi-resource entry points (BuildRuleFromResources, its Must variant, BuildRulesFromBundle, its Must
+		// variant): the text alone, after a good resource, before one, and between two - a rejected text anywhere
+		// in the list makes the call fail (the Must variants panic), an accepted one leaves every rule in place
+		if tier == "thorough" || ji%20 == 0 {
+			clashes := false
+			for _, ri := range v.Rules {
+				if ri.Name == "g1" || ri.Name == "g2" || ri.Name == "zq1" {
+					clashes = true
+				}
+			}
+			if !clashes {
+				const tail = `rule zq1 { when F.K < 0 then F.K = 1; }`
+				for ai, arr := range [][]string{{j.m.text}, {c17Good, j.m.text}, {j.m.text, tail}, {c17Good, j.m.text, tail}} {
+					for entry := 0; entry < 4; entry++ {
+						atomic.AddInt64(&entryChecked, 1)
+						failed, what := c17Entry(entry, arr)
+						if failed == v.Accept {
+							verdict := "rejects"
+							if v.Accept {
+								verdict = "accepts"
+							}
+							report(fmt.Sprintf("C17:multi-resource-entry-point-disagrees:%s:%s", c17EntryNames[entry], verdict), fmt.Sprintf("%s over %d resources (the text at position %d of arrangement %d): the recogniser %s the text (%s), the call %s", c17EntryNames[entry], len(arr), ai/2+ai%2, ai, verdict, j.m.class, what), id, j.m.text)
+						}
+					}
+				}
+			}
+		}
 		if ji%20000 == 0 {
 			rep.Sample(map[string]interface{}{"case": id, "mutation": j.m.class, "text": trunc(j.m.text, 300), "recogniser_accepts": v.Accept, "reason": v.Reason})
 		}
@@ -363,11 +428,12 @@ func C17(rep *ev.Reporter, tier string) {
 	rep.Coverage["recogniser_rejects"] = rejected
 	rep.Coverage["good_then_rejected_pairs"] = pairChecked
 	rep.Coverage["good_with_same_names_then_rejected_pairs"] = clashChecked
+	rep.Coverage["multi_resource_entry_point_calls"] = entryChecked
 	if bud.Hit() {
 		rep.Exhaustive = false
 		rep.Coverage["caps_hit"] = "time budget"
 	}
-	rep.Coverage["rule"] = fmt.Sprintf("%d valid documents covering every grammar alternative; for each EVERY single mutation at EVERY token position (delete, duplicate, swap with next, replace by / insert each of %d alphabet tokens: keywords in several cases, all punctuation and operators, identifiers incl. reserved-word look-alikes, every literal class incl. out-of-range and malformed ones, illegal characters, comment openers) and character-level delete / insert / replace with %d characters (quick: at every 3rd byte). Oracle: an independent recogniser (maximal-munch lexer transcribed from the token rules + Earley recogniser over the literally transcribed parser rules + literal validity + distinct names): BuildRuleFromResource == nil iff it accepts; on acceptance the knowledge base holds exactly the declared rules (name, unquoted description, salience); a lexical/syntactic rejection is a GruleErrorReporter with >= 1 entry; never a panic. For rejected mutants (quick: every 5th) the text is also built after a good 2-rule resource: the good rules must still instantiate, execute, store and load with unchanged behaviour; and after a good resource whose rules carry the SAME NAMES as the document's (so the text - valid or mutant - is rejected at least for the name clash): the loaded rules still behave as before.", len(docs), len(c17Alphabet), len(c17Chars))
+	rep.Coverage["rule"] = fmt.Sprintf("%d valid documents covering every grammar alternative; for each EVERY single mutation at EVERY token position (delete, duplicate, swap with next, replace by / insert each of %d alphabet tokens: keywords in several cases, all punctuation and operators, identifiers incl. reserved-word look-alikes, every literal class incl. out-of-range and malformed ones, illegal characters, comment openers) and character-level delete / insert / replace with %d characters (quick: at every 3rd byte). Oracle: an independent recogniser (maximal-munch lexer transcribed from the token rules + Earley recogniser over the literally transcribed parser rules + literal validity + distinct names): BuildRuleFromResource == nil iff it accepts; on acceptance the knowledge base holds exactly the declared rules (name, unquoted description, salience); a lexical/syntactic rejection is a GruleErrorReporter with >= 1 entry; never a panic. For rejected mutants (quick: every 5th) the text is also built after a good 2-rule resource: the good rules must still instantiate, execute, store and load with unchanged behaviour; and after a good resource whose rules carry the SAME NAMES as the document's (so the text - valid or mutant - is rejected at least for the name clash): the loaded rules still behave as before. Every 20th mutant (thorough: every one) goes through the four multi-resource entry points (BuildRuleFromResources, MustBuildRuleFromResources, BuildRulesFromBundle, MustBuildRulesFromBundle) alone, after a good resource, before one and between two: the call fails (panics) iff the recogniser rejects the text.", len(docs), len(c17Alphabet), len(c17Chars))
 	rep.Assumptions = append(rep.Assumptions, "the recogniser was validated against the valid corpus and every disagreement met during development was classified by hand (DESIGN.md §5 C17)")
 }
 
